@@ -40,7 +40,7 @@ def gen_dataset_cfg(rng, flavor='general', big=False):
     nt = rng.randint(2, 12 if big else 8)
     nc = rng.randint(2, 24 if big else 12)
     nsw = rng.randint(2, 12)
-    sr = rng.choice([100.0, 1000.0, 2500.0, 30000.0])
+    sr = rng.choice([100.0, 1000.0, 2500.0, 30000.0, 30000.0, 29999.954846, 32552.083])
     cfg = {
         'ns': ns, 'nt': nt, 'nc': nc, 'nsw': nsw, 'sr': sr, 'seed': rng.randint(0, 2 ** 31),
         'names': {k: 'ks' for k in NAMES},
@@ -86,6 +86,10 @@ def gen_dataset_cfg(rng, flavor='general', big=False):
         cfg['ns'] = ns = max(ns, 60)
     elif r < 0.08:
         cfg['time_offset'] = rng.choice([2 ** 31 + 5, 2 ** 32 + 7, 2 ** 33])
+    if rng.random() < 0.1:
+        cfg['tmpl_scale'] = rng.choice([1e-6, 1e-5, 1e3])
+    if rng.random() < 0.2:
+        cfg['flat_channels'] = rng.choice([0.15, 0.4, 0.7])
     for fam in ('times', 'stemplates', 'sclusters', 'amps', 'chmap'):
         if rng.random() < 0.3:
             cfg['colvec'].append(fam)
@@ -143,6 +147,12 @@ def gen_dataset_cfg(rng, flavor='general', big=False):
         if cfg['unused_templates'] and rng.random() < 0.4:
             cfg['poison'].append({'name': 'tmpl', 'kind': 'nan_template',
                                   'ids': cfg['unused_templates'][:2]})
+        if not cfg['sparse'] and rng.random() < 0.12:
+            # one channel of a template NaN over the whole waveform (a dead channel in the sorter's
+            # output) while its other channels carry data
+            cfg['poison'].append({'name': 'tmpl', 'kind': 'nan_column', 't': rng.randrange(nt),
+                                  'ch': rng.randrange(nc),
+                                  'val': rng.choice(['nan', 'nan', 'inf', '-inf'])})
         if rng.random() < 0.15 and not cfg.get('alf_label'):
             # both the KS and the ALF name of a family, with DIFFERENT contents: which one wins is
             # left open by the statement, but the answer must not depend on the listing order
@@ -224,6 +234,13 @@ def build_gt(cfg):
             cfg['dtypes']['times'] in ('uint64', 'int64'):
         # a recording that started long ago: sample numbers beyond the 32-bit range
         g.samples = g.samples + int(cfg['time_offset'])
+    g.alf_times = None
+    if cfg.get('alf_times_f32') is not None and cfg['names']['times'] == 'alf' \
+            and not cfg['present'].get('samples_file') and not cfg['present']['raw']:
+        # seconds stored in single precision, possibly late in a long recording: the samples
+        # recovered by rounding are then only determined up to the precision of the stored value
+        g.samples = g.samples + int(cfg['alf_times_f32'])
+        g.alf_times = (g.samples / g.sr).astype(np.float32)
     used = [t for t in range(nt) if t not in cfg['unused_templates']]
     g.stemplates = np.array([used[i] for i in rs.randint(0, len(used), size=ns)], dtype=np.int64)
     # make sure every "used" template has a spike when possible
@@ -266,6 +283,13 @@ def build_gt(cfg):
         wave = rs.normal(size=nsw)
         wave[rs.randint(0, nsw)] += 3.0 * rs.choice([-1, 1])
         T[t] += wave[:, None] * prof[None, :] * rs.uniform(1.0, 5.0)
+        if cfg.get('flat_channels'):
+            # templates of limited support, as sorters write them: exactly zero elsewhere
+            flat = rs.rand(nc) < cfg['flat_channels']
+            flat[np.argmax(T[t].max(axis=0) - T[t].min(axis=0))] = False
+            T[t][:, flat] = 0
+    # templates in physical units (volts: peaks of 1e-5) or in raw ADC counts
+    T = T * float(cfg.get('tmpl_scale', 1))
     g.templates_dense = T.astype(tdt)
     if cfg['sparse']:
         nloc = cfg['nloc_t']
@@ -356,6 +380,7 @@ def build_gt(cfg):
             g.raw = np.round(rs.normal(size=(n_rec, n_dat)) * 50, 2).astype(dt)
     # poisoned values
     g.nan_templates = []
+    g.nan_columns = []
     def _val(kind, j):
         if kind in ('nan', 'nan_template'):
             return np.nan
@@ -364,7 +389,13 @@ def build_gt(cfg):
         return np.inf
     for po in cfg['poison']:
         val = _val(po['kind'], 0)
-        if po['name'] == 'tmpl':
+        if po['name'] == 'tmpl' and po['kind'] == 'nan_column':
+            if po['t'] < nt and po['ch'] < nc and not cfg['sparse'] and nc >= 2 \
+                    and po['t'] not in g.nan_templates:
+                g.tmpl_data = g.tmpl_data.copy()
+                g.tmpl_data[po['t']][:, po['ch']] = float(po.get('val', 'nan'))
+                g.nan_columns.append((po['t'], po['ch']))
+        elif po['name'] == 'tmpl':
             for t in po['ids']:
                 if t < nt:
                     g.tmpl_data = g.tmpl_data.copy()
@@ -472,7 +503,8 @@ def write_dataset(cfg, g, d):
     if cfg['names']['times'] == 'ks':
         save('spike_times.npy', _vec(cfg, 'times', g.samples.astype(dts['times'])))
     else:
-        save(_name(cfg, 'times'), _vec(cfg, 'times', g.samples / g.sr))
+        save(_name(cfg, 'times'), _vec(cfg, 'times', g.samples / g.sr if g.alf_times is None
+                                       else g.alf_times))
         if p.get('samples_file'):
             lab = ('.' + cfg['alf_label']) if cfg.get('alf_label') else ''
             save('spikes.samples%s.npy' % lab, g.samples.astype(dts['times']))
